@@ -87,7 +87,7 @@ package serveruser
 //@ // discovery attempt finished - so a connection is never authenticated against a
 //@ // generation that a completed reload has already replaced.
 //@ func discoverUser(publisher *atomic.Pointer[state], hintMandatory *atomic.Bool, encryptedMetadata []byte, source Source, requireCurrent bool, afterAttempt func(*state)) (result discoveryResult, err error)
-//@   property C07
+//@   property C07 C05
 //@   mode int
 //@   noframe
 //@   preserves PacketUnderlay.*, StreamUnderlay.*, ghost(wr), ghost(dsent)
